@@ -188,6 +188,8 @@ def run(ck):
     try:
         explore(ck, q, n_sessions, lines, meta)
         foreign_records_layer(ck, 16 if q else 160, lines, meta)
+        big_vlr_block_layer(ck, lines, meta)
+        late_points_layer(ck, 6 if q else 60, lines, meta)
     except TooManyHangs:
         ck.count("exploration_stopped_after_hangs")
     finish(ck, lines, meta)
@@ -412,6 +414,54 @@ def foreign_records_layer(ck, n_cases, lines, meta):
         ck.count("foreign_records_outcome:" + outcome)
         check_image(ck, dest.getvalue(), intended, size, dict(inp, session_outcome=outcome),
                     f"{kind} session handed records of another point format ({variant}; {pf.size}-byte records into a {size}-byte file; outcome {outcome})", lines, meta)
+
+
+def big_vlr_block_layer(ck, lines, meta):
+    """valid files whose VLR block is larger than 64 KiB (the offset to point data needs all its four bytes), complete and cut at a few places
+    inside the VLR block, at the first point and inside the records: a prefix of the points or an exception, never VLR bytes as points"""
+    for ci, (minor, fmt) in enumerate([(2, 0), (4, 6), (3, 1)]):
+        vl = [("verif_big", 1, "first half", bytes((i * 5 + ci) & 0xFF for i in range(40000))), ("verif_big", 2, "second half", bytes((i * 7) & 0xFF for i in range(40000)))]
+        las = fio.make_las(ck.rng, minor, fmt, 6, vlrs=vl, scales=[0.01, 0.5, 1.0], offsets=[0.0, -100.0, 7.5])
+        size = las.header.point_format.size
+        intended = las.points.array.tobytes()
+        b0 = io.BytesIO()
+        las.write(b0)
+        data = b0.getvalue()
+        off = int.from_bytes(data[96:100], "little")
+        cuts = sorted({len(data), off, off + size, off + 3 * size + 5, off - 1, off - 1000, 65536 + 300, 65535, 70000, 40500, len(data) - 1})
+        for k in cuts:
+            inp = {"what": "big-vlr-block", "minor": minor, "fmt": fmt, "offset_to_point_data": off, "file_bytes": len(data), "cut_at": k}
+            ck.case(("bigvlr", minor, fmt, k), nontrivial=True)
+            ck.count("big_vlr_block_images")
+            check_image(ck, data[:k], intended, size, inp, f"file with {off} bytes of header and VLRs cut at {k} of {len(data)} bytes", [], [])
+
+
+def late_points_layer(ck, n_cases, lines, meta):
+    """a writer session that is handed more points after its EVLRs were written (and then closed): whether the late chunk is refused or not, the
+    file must read as a prefix of the points handed over - never EVLR bytes as points"""
+    import laspy
+    from laspy.vlrs.vlrlist import VLRList
+    pairs4 = [pr for pr in fio.PAIRS if pr[0] == 4]
+    for ci in range(n_cases):
+        minor, fmt = pairs4[ci % len(pairs4)]
+        las = fio.make_las(ck.rng, minor, fmt, 5)
+        size = las.header.point_format.size
+        ev = VLRList([laspy.VLR("verif", 9, "between the chunks", bytes(ck.rng.getrandbits(8) for _ in range([3, 400, 70][ci % 3])))])
+        a, b = las.points[:3], las.points[3:]
+        outcome = "accepted"
+        dest = io.BytesIO()
+        try:
+            with laspy.open(dest, mode="w", header=las.header, closefd=False) as w:
+                w.write_points(a)
+                w.write_evlrs(ev)
+                w.write_points(b)
+        except Exception as e:
+            outcome = type(e).__name__
+        inp = {"what": "points-after-evlrs", "minor": minor, "fmt": fmt, "evlr_payload": len(ev[0].record_data), "late_chunk_outcome": outcome}
+        ck.case(("late_points", minor, fmt, ci % 3, las.points.array.tobytes()), nontrivial=True)
+        ck.count("late_points_outcome:" + outcome)
+        check_image(ck, dest.getvalue(), las.points.array.tobytes(), size, inp,
+                    f"writer session: 3 points, EVLRs, then 2 more points ({outcome}), closed", lines, meta)
 
 
 def finish(ck, lines, meta):
